@@ -94,11 +94,20 @@ def main():
             shutil.copy(patch, os.path.join(dst, "patch.diff"))
             shutil.copy(demo, os.path.join(dst, "demo.py"))
             meta = dict(meta)
+            suite_line = "repo test-suite with the change -> %s (%s)" % (
+                "pass" if report.get("suite_passes_with_change") else "not run/fail", report.get("suite_tail"))
+            if args.skip_suite and os.path.exists(os.path.join(dst, "meta.json")):
+                # re-verification after a check was extended: keep the suite result recorded earlier
+                try:
+                    old = json.load(open(os.path.join(dst, "meta.json")))["verified"]["ran"]
+                    suite_line = next((ln for ln in old if ln.startswith("repo test-suite") and "-> pass" in ln),
+                                      suite_line)
+                except Exception:
+                    pass
             meta["verified"] = {
                 "repo_head": head,
                 "ran": ["demo on clean tree -> exit %d" % rc0,
-                        "repo test-suite with the change -> %s (%s)" % (
-                            "pass" if report.get("suite_passes_with_change") else "not run/fail", report.get("suite_tail")),
+                        suite_line,
                         "demo with the change -> exit %d" % rc1] + [
                     "./check %s --tier %s (VERIF_SEED=%s) on the changed tree -> exit %d%s" % (
                         c, args.tier, r["seed"], r["exit"], (": " + r["violation"]) if r["violation"] else "")
